@@ -10,6 +10,7 @@ The property oracles (exact `Fraction` arithmetic, shapely) never use the model.
 """
 from __future__ import annotations
 
+import itertools
 import json
 import math
 import os
@@ -40,12 +41,16 @@ META = {
     "realistic doubles (Albers/UTM/degree grids, sizes at k±δ and 1/(k±δ) around the library's snapping windows with "
     "indices up to 1e4 from the sample, zoom 0..30), multi-step histories sharing one geobox_cache (each step compared "
     "with the stateless query, the shapely reference and the expected cache contents), plus Fraction/shapely oracles "
-    "(two-sided, ulp-derived bounds on rebuilt sizes/origins).",
+    "(two-sided, ulp-derived bounds on rebuilt sizes/origins); query geometries of every kind (multi-part, points, lines, "
+    "collections, holes, concave) with/without cache and in another CRS incl. continental EPSG:4326 polygons judged by a "
+    "fresh pyproj projection of the densified geometry; every grid value through pickle/copy/deepcopy/another interpreter "
+    "with behavioural equality; the CRS guard of idx_bounds; a time-boxed multi-thread stress of one shared instance.",
     "note": "Trusted: Lean kernel + {propext, Classical.choice, Quot.sound}; shapely `disjoint` enters the "
     "polygon theorems as a parameter with its contract as hypothesis (driver instance: separating-axis test for "
     "convex polygons, validated against shapely each run); theorems are over exact rationals — IEEE rounding is "
     "covered only by the bit-exact F-mode correspondence and the float-stream oracles (slack 1e-9 relative); "
-    "CRS checks/reprojection of the query polygon (to_crs) are not modelled.",
+    "reprojection of the query polygon (to_crs) is not modelled (only the CRS guard of idx_bounds is); thread safety of a "
+    "shared instance is sampled by a time-boxed stress, not proved.",
     "technique": "Lean 4 proof over hand model + exact and bit-exact (binary64) differential correspondence with real code",
     "design_ref": "DESIGN.md §4 C14",
 }
@@ -67,6 +72,18 @@ def _import():
 
 def fs(x) -> str:
     return frac_s(float(x))
+
+
+TILE_CAP = 200_000
+
+
+def ltiles(it):
+    """materialise a tile generator of the real code, but never more than TILE_CAP tiles (a changed library may
+    answer a small query with an astronomically large index range)"""
+    out = list(itertools.islice(it, TILE_CAP + 1))
+    if len(out) > TILE_CAP:
+        raise RuntimeError(f"query yields more than {TILE_CAP} tiles")
+    return out
 
 
 def idx_s(k) -> str:
@@ -219,7 +236,7 @@ def oracle_query(C, gs, sp: Spec, q: Tuple[float, float, float, float], exact: b
     """bbox query returns the tiles overlapping the query shrunk by 1e-8, nothing farther than 1e-8 away"""
     case = {"op": "tiles", "grid": sp.tok(), "bbox": [fs(v) for v in q]}
     try:
-        got = [tuple(map(int, k)) for k, _ in gs.tiles(O.BoundingBox(*q, CRS))]
+        got = [tuple(map(int, k)) for k, _ in ltiles(gs.tiles(O.BoundingBox(*q, CRS)))]
         rng = tuple(map(int, gs.idx_bounds(O.BoundingBox(*q, CRS))))
     except Exception as e:  # pylint: disable=broad-except
         C.oracle(False, "tiles-raises", case, repr(e))
@@ -284,8 +301,8 @@ def oracle_polygon(C, gs, sp: Spec, pts: List[Tuple[float, float]], exact: bool,
     try:
         poly = mk_poly(O, pts, holes)
         if got is None:
-            got = [tuple(map(int, k)) for k, _ in gs.tiles_from_geopolygon(poly)]
-        cand = [(tuple(map(int, k)), gb) for k, gb in gs.tiles(poly.boundingbox)]
+            got = [tuple(map(int, k)) for k, _ in ltiles(gs.tiles_from_geopolygon(poly))]
+        cand = [(tuple(map(int, k)), gb) for k, gb in ltiles(gs.tiles(poly.boundingbox))]
     except Exception as e:  # pylint: disable=broad-except
         C.oracle(False, "polygon-query-raises", case, repr(e))
         return
@@ -393,8 +410,8 @@ def oracle_geom(C, gs, sp: Spec, shp, exact: bool, O, got=None, history=None, ki
     try:
         g = O.geom.Geometry(shp, CRS)
         if got is None:
-            got = [tuple(map(int, k)) for k, _ in gs.tiles_from_geopolygon(g)]
-        cand = [(tuple(map(int, k)), gb) for k, gb in gs.tiles(g.boundingbox)]
+            got = [tuple(map(int, k)) for k, _ in ltiles(gs.tiles_from_geopolygon(g))]
+        cand = [(tuple(map(int, k)), gb) for k, gb in ltiles(gs.tiles(g.boundingbox))]
     except Exception as e:  # pylint: disable=broad-except
         C.oracle(False, "polygon-query-raises", case, repr(e))
         return
@@ -533,13 +550,13 @@ def geom_queries(R_or_C, O, gs, sp: Spec, rng, lattice: bool, exact: bool, kinds
         case = {"op": "geom", "grid": sp.tok(), "kind": kind, "wkb": shp.wkb_hex, "wkt": shp.wkt[:300], "cache": True}
         try:
             g = O.geom.Geometry(shp, CRS)
-            alone = [tuple(map(int, k)) for k, _ in gs.tiles_from_geopolygon(g)]
+            alone = [tuple(map(int, k)) for k, _ in ltiles(gs.tiles_from_geopolygon(g))]
             c1 = {}
-            fresh = [tuple(map(int, k)) for k, _ in gs.tiles_from_geopolygon(g, c1)]
+            fresh = [tuple(map(int, k)) for k, _ in ltiles(gs.tiles_from_geopolygon(g, c1))]
             c2 = {}
-            list(gs.tiles(g.boundingbox, c2))
-            filled = [tuple(map(int, k)) for k, _ in gs.tiles_from_geopolygon(g, c2)]
-            want = {tuple(map(int, k)) for k, _ in gs.tiles(g.boundingbox)}
+            ltiles(gs.tiles(g.boundingbox, c2))
+            filled = [tuple(map(int, k)) for k, _ in ltiles(gs.tiles_from_geopolygon(g, c2))]
+            want = {tuple(map(int, k)) for k, _ in ltiles(gs.tiles(g.boundingbox))}
             ok = alone == fresh == filled and set(c1) == want and set(c2) == want and all(c1[k] == gs.tile_geobox(k) for k in c1)
             R_or_C.oracle(ok, "polygon-query-depends-on-cache", case,
                           f"{kind}: no cache {sorted(alone)[:8]}, fresh cache {sorted(fresh)[:8]}, pre-filled cache {sorted(filled)[:8]}; "
@@ -556,10 +573,10 @@ def other_crs_geom(O, shp4326, grid=None):
     try:
         gsa = grid or O.GridSpec("epsg:3577", (4000, 4000), 25.0)
         g = O.geom.Geometry(shp4326, "epsg:4326")
-        got = sorted(tuple(map(int, k)) for k, _ in gsa.tiles_from_geopolygon(g))
-        gotc = sorted(tuple(map(int, k)) for k, _ in gsa.tiles_from_geopolygon(g, {}))
+        got = sorted(tuple(map(int, k)) for k, _ in ltiles(gsa.tiles_from_geopolygon(g)))
+        gotc = sorted(tuple(map(int, k)) for k, _ in ltiles(gsa.tiles_from_geopolygon(g, {})))
         pp = g.to_crs("epsg:3577", check_and_fix=True)
-        ref = sorted(tuple(map(int, k)) for k, gb in gsa.tiles(pp.boundingbox) if pp.geom.intersects(sg.box(*gb.boundingbox)))
+        ref = sorted(tuple(map(int, k)) for k, gb in ltiles(gsa.tiles(pp.boundingbox)) if pp.geom.intersects(sg.box(*gb.boundingbox)))
         return got == ref == gotc and len(got) > 0, f"{shp4326.geom_type}: tiles_from_geopolygon {got[:8]} (with cache {gotc[:8]}) vs shapely reference {ref[:8]}"
     except Exception as e:  # pylint: disable=broad-except
         return False, repr(e)
@@ -593,8 +610,8 @@ def oracle_big_crs(C, O, gdesc, shp4326, known_check=None):
     try:
         gs = O.GridSpec(crs, shape, res)
         g = O.geom.Geometry(shp4326, "epsg:4326")
-        got = {tuple(map(int, k)) for k, _ in gs.tiles_from_geopolygon(g)}
-        gotc = {tuple(map(int, k)) for k, _ in gs.tiles_from_geopolygon(g, {})}
+        got = {tuple(map(int, k)) for k, _ in ltiles(gs.tiles_from_geopolygon(g))}
+        gotc = {tuple(map(int, k)) for k, _ in ltiles(gs.tiles_from_geopolygon(g, {}))}
     except Exception as e:  # pylint: disable=broad-except
         C.oracle(False, "polygon-query-raises", case, repr(e))
         return None
@@ -664,7 +681,7 @@ def behaviour(gs, O, idxs, pts, q):
         out.append(idx_s(gs.pt2idx(x, y).xy))
     bb = O.BoundingBox(*q, str(gs.crs))
     out.append(" ".join(str(int(v)) for v in gs.idx_bounds(bb)))
-    out.append(list_s([tuple(map(int, k)) for k, _ in gs.tiles(bb)], idx_s))
+    out.append(list_s([tuple(map(int, k)) for k, _ in ltiles(gs.tiles(bb))], idx_s))
     return out
 
 
@@ -777,8 +794,8 @@ def thread_stress(C, O, sp: Spec, budget_s: float, seed: int, nthreads: int = 6)
         return ([("tile_geobox", k, lambda k=k: tile_s(gs.tile_geobox(k))) for k in idxs]
                 + [("getitem", k, lambda k=k: tile_s(gs[k])) for k in idxs]
                 + [("pt2idx", p, lambda p=p: idx_s(gs.pt2idx(*p).xy)) for p in pts]
-                + [("tiles", "q", lambda: " ".join(f"{idx_s(k)}={tile_s(gb)}" for k, gb in gs.tiles(q))),
-                   ("tiles_from_geopolygon", "poly", lambda: " ".join(f"{idx_s(k)}={tile_s(gb)}" for k, gb in gs.tiles_from_geopolygon(poly))),
+                + [("tiles", "q", lambda: " ".join(f"{idx_s(k)}={tile_s(gb)}" for k, gb in ltiles(gs.tiles(q)))),
+                   ("tiles_from_geopolygon", "poly", lambda: " ".join(f"{idx_s(k)}={tile_s(gb)}" for k, gb in ltiles(gs.tiles_from_geopolygon(poly)))),
                    ("geojson", "q", lambda: repr([(f["properties"], f["geometry"]) for f in gs.geojson(bbox=q)["features"]]))])
 
     want = [f() for _, _, f in ops(fresh)]
@@ -848,13 +865,13 @@ def run_history(O, gs, steps):
             continue
         c = cache if kind in "BPQG" else None
         if kind in "Bb":
-            res = list(gs.tiles(O.BoundingBox(*arg, CRS), c))
+            res = ltiles(gs.tiles(O.BoundingBox(*arg, CRS), c))
         elif kind in "Pp":
-            res = list(gs.tiles_from_geopolygon(mk_poly(O, arg), c))
+            res = ltiles(gs.tiles_from_geopolygon(mk_poly(O, arg), c))
         elif kind == "G":
-            res = list(gs.tiles_from_geopolygon(O.geom.Geometry(arg, CRS), c))
+            res = ltiles(gs.tiles_from_geopolygon(O.geom.Geometry(arg, CRS), c))
         else:
-            res = list(gs.tiles_from_geopolygon(mk_poly(O, arg[0], arg[1]), c))
+            res = ltiles(gs.tiles_from_geopolygon(mk_poly(O, arg[0], arg[1]), c))
         outs.append((kind, arg, [(tuple(map(int, k)), gb) for k, gb in res]))
     return outs, cache
 
@@ -917,29 +934,29 @@ def oracle_history(C, gs, sp: Spec, steps, exact: bool, O):
         C.oracle(not bad, "history-yields-wrong-geobox", dict(case, step=n), f"step {n} ({kind}) yielded a geobox that is not tile_geobox(index) for {bad[:5]}")
         if kind in "Bb":
             bb = O.BoundingBox(*arg, CRS)
-            alone = [tuple(map(int, k)) for k, _ in gs.tiles(bb)]
+            alone = [tuple(map(int, k)) for k, _ in ltiles(gs.tiles(bb))]
             C.oracle(got == alone, "bbox-query-depends-on-cache", dict(case, step=n),
                      f"step {n}: tiles(bbox, cache) = {got[:8]} but tiles(bbox) = {alone[:8]}", sig="history|bbox")
             if kind == "B":
                 want_keys |= set(alone)
         elif kind == "G":
             g = O.geom.Geometry(arg, CRS)
-            alone = [tuple(map(int, k)) for k, _ in gs.tiles_from_geopolygon(g)]
+            alone = [tuple(map(int, k)) for k, _ in ltiles(gs.tiles_from_geopolygon(g))]
             C.oracle(got == alone, "polygon-query-depends-on-cache", dict(case, step=n),
                      f"step {n}: {arg.geom_type} query through the shared cache = {sorted(got)[:10]} but without the cache {sorted(alone)[:10]}",
                      sig="history|geom")
             oracle_geom(C, gs, sp, arg, exact, O, got=got, history=hj)
-            want_keys |= {tuple(map(int, k)) for k, _ in gs.tiles(g.boundingbox)}
+            want_keys |= {tuple(map(int, k)) for k, _ in ltiles(gs.tiles(g.boundingbox))}
         else:
             pts, holes = (arg, None) if kind in "Pp" else arg
             poly = mk_poly(O, pts, holes)
-            alone = [tuple(map(int, k)) for k, _ in gs.tiles_from_geopolygon(poly)]
+            alone = [tuple(map(int, k)) for k, _ in ltiles(gs.tiles_from_geopolygon(poly))]
             C.oracle(got == alone, "polygon-query-depends-on-cache", dict(case, step=n),
                      f"step {n}: tiles_from_geopolygon(poly, cache) = {sorted(got)[:10]} but without the cache {sorted(alone)[:10]}",
                      sig="history|poly")
             oracle_polygon(C, gs, sp, pts, exact, O, got=got, history=hj, holes=holes)
             if kind in "PQ":
-                want_keys |= {tuple(map(int, k)) for k, _ in gs.tiles(poly.boundingbox)}
+                want_keys |= {tuple(map(int, k)) for k, _ in ltiles(gs.tiles(poly.boundingbox))}
     keys = {tuple(map(int, k)) for k in cache}
     bad = [k for k, gb in cache.items() if not (gb == gs.tile_geobox(k))]
     C.oracle(keys == want_keys and not bad, "geobox-cache-contents", case,
@@ -1199,7 +1216,7 @@ def emit_query(R: Run, O, gs, sp: Spec, q, modes: str, tag=""):
              sig=f"idxb|{m}|{sp.sig()}{tag}", safe=safe)
     m = modes[-1]
     corr(R, f"c14 tiles {m} {sp.tok()} {qs}",
-         lambda: list_s(sorted((tuple(map(int, k)) for k, _ in gs.tiles(bb)), key=lambda k: (k[1], k[0])), idx_s),
+         lambda: list_s(sorted((tuple(map(int, k)) for k, _ in ltiles(gs.tiles(bb))), key=lambda k: (k[1], k[0])), idx_s),
          sig=f"tiles|{m}{tag}", safe=safe)
 
 
@@ -1208,7 +1225,7 @@ def emit_poly(R: Run, O, gs, sp: Spec, pts, modes: str, tag=""):
 
     def f():
         poly = O.geom.polygon([tuple(map(float, p)) for p in pts] + [tuple(map(float, pts[0]))], CRS)
-        return list_s(sorted((tuple(map(int, k)) for k, _ in gs.tiles_from_geopolygon(poly)),
+        return list_s(sorted((tuple(map(int, k)) for k, _ in ltiles(gs.tiles_from_geopolygon(poly))),
                              key=lambda k: (k[1], k[0])), idx_s)
 
     for m in modes:
@@ -1633,7 +1650,7 @@ def run(R: Run):
             bbq = O.BoundingBox(*q, crs_b)
             corr(R, f"c14 idxbc E {sp.tok()} {bool_s(same)} {' '.join(fs(v) for v in q)}",
                  lambda: guarded(lambda: " ".join(str(int(v)) for v in gs.idx_bounds(bbq))) + " "
-                 + guarded(lambda: list_s([tuple(map(int, k)) for k, _ in gs.tiles(bbq)], idx_s)), sig=f"idxbc|same-crs={same}")
+                 + guarded(lambda: list_s([tuple(map(int, k)) for k, _ in ltiles(gs.tiles(bbq))], idx_s)), sig=f"idxbc|same-crs={same}")
 
     # --- continental-size geometries in EPSG:4326 against projected grids (curved edges, vertex on the bulging side)
     big_grids = [("epsg:3577", (4000, 4000), 25.0), ("epsg:3577", (2000, 2500), 30.0), ("epsg:32755", (10000, 10000), 10.0),
@@ -1773,9 +1790,9 @@ def other_crs_case(O, ring):
     try:
         gsa = O.GridSpec("epsg:3577", (4000, 4000), 25.0)
         p = O.geom.polygon([tuple(map(float, q)) for q in ring], "epsg:4326")
-        got = sorted(tuple(map(int, k)) for k, _ in gsa.tiles_from_geopolygon(p))
+        got = sorted(tuple(map(int, k)) for k, _ in ltiles(gsa.tiles_from_geopolygon(p)))
         pp = p.to_crs("epsg:3577", check_and_fix=True)
-        ref = sorted(tuple(map(int, k)) for k, gb in gsa.tiles(pp.boundingbox) if pp.geom.intersects(sg.box(*gb.boundingbox)))
+        ref = sorted(tuple(map(int, k)) for k, gb in ltiles(gsa.tiles(pp.boundingbox)) if pp.geom.intersects(sg.box(*gb.boundingbox)))
         return got == ref and len(got) > 0, f"tiles_from_geopolygon {got[:8]} vs shapely reference {ref[:8]}"
     except Exception as e:  # pylint: disable=broad-except
         return False, repr(e)
@@ -1961,7 +1978,7 @@ def replay(R: Run, rec) -> int:
         shp = shapely.from_wkb(bytes.fromhex(case["wkb"]))
         print("geometry:", shp.wkt[:400])
         print("tiles_from_geopolygon on the real code:",
-              guarded(lambda: str(sorted(tuple(map(int, k)) for k, _ in gs.tiles_from_geopolygon(O.geom.Geometry(shp, CRS))))))
+              guarded(lambda: str(sorted(tuple(map(int, k)) for k, _ in ltiles(gs.tiles_from_geopolygon(O.geom.Geometry(shp, CRS)))))))
         if "history" in case:
             oracle_history(C, gs, sp, steps_from_json(case["history"]), False, O)
         else:
@@ -1969,10 +1986,10 @@ def replay(R: Run, rec) -> int:
             # cache variants of the same geometry
             try:
                 g = O.geom.Geometry(shp, CRS)
-                a = [k for k, _ in gs.tiles_from_geopolygon(g)]
+                a = [k for k, _ in ltiles(gs.tiles_from_geopolygon(g))]
                 c2 = {}
-                list(gs.tiles(g.boundingbox, c2))
-                b2 = [k for k, _ in gs.tiles_from_geopolygon(g, c2)]
+                ltiles(gs.tiles(g.boundingbox, c2))
+                b2 = [k for k, _ in ltiles(gs.tiles_from_geopolygon(g, c2))]
                 if a != b2 and C.fail is None:
                     C.fail = {"what": f"result depends on the cache: {sorted(a)[:8]} vs {sorted(b2)[:8]}"}
             except Exception as e:  # pylint: disable=broad-except
